@@ -974,6 +974,22 @@ class ServerTls(Server):
             elif cx.cutoff:  # connection lost during handshake, already closed
                 del self.cxes[ca]
 
+    def closeAllCx(self):
+        """
+        Shutdown and close all accepted connections whose handshake is still
+        pending and forget them, a closed connection can not complete its handshake
+        """
+        for ca, cx in self.cxes.items():
+            cx.close()
+            del self.cxes[ca]
+
+    def closeAll(self):
+        """
+        Close all sockets
+        """
+        super(ServerTls, self).closeAll()
+        self.closeAllCx()
+
     def serviceConnects(self):
         """
         Service accept and handshake attempts
